@@ -16,6 +16,7 @@ class Prim (α : Type) where
   sin : α → α
   cos : α → α
   atan2 : α → α → α
+  pow : α → α → α      -- C `pow(x, y)` with a real exponent
   floorI : α → Int
 
 class Sc (α : Type) extends Add α, Sub α, Mul α, Div α, Neg α, LT α, LE α,
@@ -48,6 +49,7 @@ instance : Prim Float where
   sin := Float.sin
   cos := Float.cos
   atan2 := Float.atan2
+  pow := Float.pow
   floorI := floatFloorI
 
 instance : Sc Float := { decLt := inferInstance, decLe := inferInstance }
